@@ -90,6 +90,61 @@ def c07(ctx):
              lambda: runner.lane_facts(ctx, 'drv_int.cpp', 'select', INT_GROUPS))
 
 
+ALL_GROUPS = [8, 16, 32, 64]
+
+
+def c03(ctx):
+    ctx.assumptions += LANE_ASSUME + [
+        'masks wider than 16 lanes (8 in the quick tier) are exercised on structured + random patterns, not all 2^N values',
+        'register programs: 4 live masks, seeded random programs; hidden representation state is only seen if some observer or later operation exposes it']
+
+    def mc():
+        for n, kb in ((1, 8), (2, 8), (4, 8), (8, 8)) + (((16, 16),) if ctx.tier == 'thorough' else ()):
+            if n == 16:
+                continue    # 2^32 register pairs: out of reach, N = 8 is the largest exhaustive instance
+            ctx.mc('MC_Mask', mc_cfg(['N = %d' % n, 'KBits = %d' % kb, 'MaskAfterNot = TRUE'],
+                                     ['TypeOK', 'C03_Algebra', 'RefinementOK'], view='View'), 'mask%d' % n, workers=4)
+
+    def conf():
+        runner.lane_facts(ctx, 'drv_mask.cpp', 'maskfacts', ALL_GROUPS)
+        runner.ordered_traces(ctx, 'drv_mask.cpp', 'maskrm', ALL_GROUPS, 'TraceMask', '.rm')
+    _with_mc(ctx, mc, conf)
+
+
+def mc_mem(ctx):
+    depth = 3 if ctx.tier == 'thorough' else 2
+    for (n, w) in ((4, 1), (2, 2)) + (((4, 2),) if ctx.tier == 'thorough' else ()):
+        ctx.mc('MC_Mem', mc_cfg(['PageBytes = 8', 'N = %d' % n, 'w = %d' % w, 'Strategies = {"exact", "masked"}',
+                                 'MaxDepth <- MaxDepth%d' % depth],
+                                ['C08', 'C09'], constraint='Bounded', view='View'), 'mem%dx%d' % (n, w), workers=8)
+    # the design-level counterexample: a full-window read-modify-write violates C09
+    r = runner.tlc.model_check('MC_Mem', mc_cfg(['PageBytes = 8', 'N = 4', 'w = 1', 'Strategies = {"window"}',
+                                                 'MaxDepth <- MaxDepth2'],
+                                                ['C09'], constraint='Bounded', view='View'), ctx.scratch, 'memwindow', workers=4)
+    if r['ok'] or r['violated'] != 'C09':
+        raise runner.tlc.TLCError('MC_Mem: the window strategy was expected to violate C09 (vacuity guard)')
+    ctx.notes.append('MC_Mem vacuity guard: strategy "window" violates C09 as expected (%d states)' % r['states'])
+
+
+MEM_ASSUME = [
+    'read footprints are observed through page protection only: an over-read that stays inside the accessible page is not seen (aligned loads)',
+    'write footprints are observed exactly, through sentinel bytes around every target',
+    'counts above 1000 (2^31, 2^32-1) are recorded as 1000/1001: the specification only depends on min(n, width)',
+]
+
+
+def c08(ctx):
+    ctx.assumptions += LANE_ASSUME[2:] + MEM_ASSUME
+    _with_mc(ctx, lambda: mc_mem(ctx),
+             lambda: runner.lane_facts(ctx, 'drv_mem.cpp', 'mem', ALL_GROUPS, env_extra={'MEMMODE': 'values'}))
+
+
+def c09(ctx):
+    ctx.assumptions += LANE_ASSUME[2:] + MEM_ASSUME
+    _with_mc(ctx, lambda: mc_mem(ctx),
+             lambda: runner.lane_facts(ctx, 'drv_mem.cpp', 'mem', ALL_GROUPS, env_extra={'MEMMODE': 'footprint'}))
+
+
 CHECKS = {
-    'C01': c01, 'C02': c02, 'C04': c04, 'C05': c05, 'C06': c06, 'C07': c07,
+    'C01': c01, 'C02': c02, 'C03': c03, 'C04': c04, 'C05': c05, 'C06': c06, 'C07': c07, 'C08': c08, 'C09': c09,
 }
